@@ -141,7 +141,16 @@ Definition card_got (c : card) (n : Z) : res Z :=
   | CardNone => Ok n
   | CardMax m => if Z.eqb m (-1) then Ok n else if Z.ltb m (n + 1) then Err ERuntime else Ok (n + 1)%Z
   | CardExact m => if Z.ltb m (n + 1) then Err ERuntime else Ok (n + 1)%Z
+  (* after "fix: CardinalityRange counts the values also when the maximum is unlimited": the pinned code did not
+     count for hi = -1, so the minimum was never enforced *)
+  | CardRange _ hi => if Z.eqb hi (-1) then Ok (n + 1)%Z else if Z.ltb hi (n + 1) then Err ERuntime else Ok (n + 1)%Z
+  end.
+
+(** CardinalityRange::gotValue of the pinned tree: with the maximum -1 ("unlimited") the values were not counted *)
+Definition card_got_pinned (c : card) (n : Z) : res Z :=
+  match c with
   | CardRange _ hi => if Z.eqb hi (-1) then Ok n else if Z.ltb hi (n + 1) then Err ERuntime else Ok (n + 1)%Z
+  | _ => card_got c n
   end.
 
 (** ICardinality::check (end of the command line) *)
